@@ -7,7 +7,7 @@ from reactivex import operators as ops
 
 from vlib.core import FAIL, OK, Check
 from vlib.lab import conform
-from vlib.timeops import CLOCKS, cv, effective, execute, first_fire, fwd, judge, mk_lab, nelems, outcomes, prelude, sources, targ, triggers
+from vlib.timeops import CLOCKS, combine, cv, effective, execute_all, first_fire, fwd, judge, mk_lab, nelems, outcomes, prelude, second_sub, sources, sub_ticks, targ, triggers
 
 PROPERTY_ID = "C17"
 LEVEL = "exploration"
@@ -27,7 +27,7 @@ RULE = (
     "while each arrives before last-activity+d (absolute: before D); otherwise the fallback is subscribed exactly then (or the "
     "sequence fails then), never after the source terminated; timeout_with_mapper likewise with the first firing (N or C) of "
     "the first-timeout / per-element timeout observable. Non-trivial: some element within one tick of a boundary (for timeout: "
-    "within one tick of a running deadline). Distinct = distinct case JSON."
+    "within one tick of a running deadline). In 1 case of 3 the same built observable is subscribed a second time at a generated tick s1 in s0+{0,1,2,3,7}; the same oracle is applied to that probe with its own subscribe tick, and the fallback must be subscribed once per timed-out subscription. Distinct = distinct case JSON."
 )
 ASSUMPTIONS = [
     "at an exact tie between an operator timer and a source notification either order is accepted (one order per timer and instant)",
@@ -86,14 +86,16 @@ def _run_window(case):
     lab = mk_lab(case["clock"])
     s0, op, form = case["s0"], case["op"], case["form"]
     src = lab.source(case["src"])
-    if form == "abs":
-        arg = targ(lab, "abs", case["b"])
-        B = max(case["b"], s0)
-    else:
-        arg = targ(lab, form, case["b"])
-        B = s0 + case["b"]
+    arg = targ(lab, form, case["b"])
     f = {"take_with_time": ops.take_with_time, "skip_with_time": ops.skip_with_time, "take_until_with_time": ops.take_until_with_time, "skip_until_with_time": ops.skip_until_with_time}[op]
-    p = execute(lab, src.pipe(f(arg)), s0)
+    ticks = sub_ticks(case)
+    probes = execute_all(lab, src.pipe(f(arg)), ticks)
+    return combine([_judge_window(case, lab, p, s) for p, s in zip(probes, ticks)], ticks)
+
+
+def _judge_window(case, lab, p, s0):
+    op, form = case["op"], case["form"]
+    B = max(case["b"], s0) if form == "abs" else s0 + case["b"]
     eff = effective(case["src"], s0)
     cls = _bcls(case)
     if form == "abs" and case["b"] < s0:
@@ -113,13 +115,13 @@ def _run_last_once(case, tl, op):
     lab = mk_lab(case["clock"])
     src = lab.source({"kind": case["src"]["kind"], "tl": tl})
     f = ops.take_last_with_time if op == "take_last_with_time" else ops.skip_last_with_time
-    p = execute(lab, src.pipe(f(targ(lab, case["form"], case["d"]))), case["s0"])
-    return lab, p
+    probes = execute_all(lab, src.pipe(f(targ(lab, case["form"], case["d"]))), sub_ticks(case))
+    return lab, probes
 
 
-def _judge_last(case, tl, op, lab, p, cls):
+def _judge_last(case, tl, op, lab, p, cls, s0):
     """Direct oracle for one run. Returns (Result|None, fates{value: emitted?})."""
-    d, s0 = case["d"], case["s0"]
+    d = case["d"]
     r = prelude(lab, p, op, case)
     if r is not None:
         return r, None
@@ -177,29 +179,37 @@ def _judge_last(case, tl, op, lab, p, cls):
 def _run_last(case):
     op = case["op"]
     tl = case["src"]["tl"]
+    ticks = sub_ticks(case)
+    lab, probes = _run_last_once(case, tl, op)
+    ex = case.get("extra")
+    lab2 = probes2 = tl2 = t_new = None
+    if ex is not None:
+        # metamorphic twin: one extra element inserted at position k with a time between its neighbours
+        body = [m for m in conform(tl)]
+        n_el = sum(1 for m in body if m[1] == "N")
+        k = ex["pos"] % (n_el + 1)
+        lo = body[k - 1][0] if k > 0 else (body[0][0] if body else 0)
+        hi = body[k][0] if k < len(body) else lo
+        t_new = lo + (ex["frac"] * (hi - lo)) // 3 if hi > lo else lo
+        tl2 = body[:k] + [[t_new, "N", "n:50"]] + body[k:]
+        lab2, probes2 = _run_last_once(case, tl2, op)
+    res = []
+    for i, s0 in enumerate(ticks):
+        res.append(_last_verdict(case, op, tl, lab, probes[i], s0, tl2, lab2, probes2[i] if probes2 else None, t_new))
+    return combine(res, ticks)
+
+
+def _last_verdict(case, op, tl, lab, p, s0, tl2, lab2, p2, t_new):
     cls = _bcls(case)
-    lab, p = _run_last_once(case, tl, op)
-    r, fates = _judge_last(case, tl, op, lab, p, cls)
+    r, fates = _judge_last(case, tl, op, lab, p, cls, s0)
     if r is not None:
         return r
-    eff = effective(case["src"], case["s0"])
+    eff = effective(case["src"], s0)
     near = bool(eff) and eff[-1][1] == "C" and any(m[1] == "N" and abs((eff[-1][0] - m[0]) - case["d"]) <= 1 for m in eff)
-    ex = case.get("extra")
-    if ex is None or fates is None:
+    if p2 is None or fates is None:
         return OK(near, cls)
-    # metamorphic twin: one extra element inserted at position k with a time between its neighbours
-    body = [m for m in conform(tl)]
-    n_el = sum(1 for m in body if m[1] == "N")
-    k = ex["pos"] % (n_el + 1)
-    lo = body[k - 1][0] if k > 0 else (body[0][0] if body else 0)
-    hi = body[k][0] if k < len(body) else lo
-    if k == 0:
-        lo = min(lo, hi)
-    t_new = lo + (ex["frac"] * (hi - lo)) // 3 if hi > lo else lo
-    tl2 = body[:k] + [[t_new, "N", "n:50"]] + body[k:]
-    lab2, p2 = _run_last_once(case, tl2, op)
     cls2 = []
-    r2, fates2 = _judge_last(case, tl2, op, lab2, p2, cls2)
+    r2, fates2 = _judge_last(case, tl2, op, lab2, p2, cls2, s0)
     cls.append("twin")
     if r2 is not None:
         r2.classes = tuple(cls)
@@ -264,60 +274,78 @@ def _exp_timeout_abs(eff, B, other, ch, log):
     return out + _fallback(B, other)
 
 
-def _check_fallback_subs(op, case, p, oth, outs, cls):
-    """The fallback is subscribed exactly when the matched outcome timed out, at that instant; never otherwise."""
+def _fallback_wants(p, outs_logs):
+    """Acceptable fallback-subscription tick lists ([] or [t]) for one probe, from the outcomes matching its trace."""
     tr = _norm_timeout(p.trace())
-    wants = [[log[0]] if log else [] for (dec, exp), log in outs if tr == exp]
-    if not wants:
+    return [[log[0]] if log else [] for (dec, exp), log in outs_logs if tr == exp]
+
+
+def _check_fallback_all(op, case, oth, wants_per_probe, cls):
+    """The fallback is subscribed exactly once per timed-out subscription, at its deadline; never otherwise."""
+    import itertools
+
+    if any(not w for w in wants_per_probe):
         return None
-    if oth is not None and [s[0] for s in oth.subs] not in wants:
-        return FAIL(f"fallback-subscription|{op}", f"fallback subscriptions {oth.subs}, expected at {wants[0]}; trace={tr} case={case}", classes=cls)
-    if any(wants):
-        cls.append("timed-out")
+    combos = [sorted(sum(c, [])) for c in itertools.product(*wants_per_probe)]
+    if oth is not None and sorted(x[0] for x in oth.subs) not in combos:
+        sig = f"fallback-subscription|{op}" + (":2nd-subscription" if len(wants_per_probe) > 1 else "")
+        return FAIL(sig, f"fallback subscriptions {oth.subs}, expected at {combos[0]}; case={case}", classes=cls)
     return None
+
+
+def _timeout_sim(case, eff, s0, other):
+    form = case["form"]
+    if form == "abs":
+        B = max(case["b"], s0)
+        return lambda ch, log: _exp_timeout_abs(eff, B, other, ch, log)
+    return lambda ch, log: _exp_timeout_rel(eff, s0, case["b"], other, ch, log)
 
 
 def _run_timeout(case):
     lab = mk_lab(case["clock"])
-    s0, form = case["s0"], case["form"]
+    form = case["form"]
     src = lab.source(case["src"])
     other = case.get("other")
     oth = lab.source(other) if other is not None else None
-    eff = effective(case["src"], s0)
-    cls = _bcls(case) + ["fallback" if other is not None else "no-fallback"]
-    if form == "abs":
-        arg = targ(lab, "abs", case["b"])
-        B = max(case["b"], s0)
-        sims = lambda ch, log: _exp_timeout_abs(eff, B, other, ch, log)  # noqa: E731
-        near = _near(eff, B)
-        if case["b"] < s0:
-            cls.append("absolute-in-the-past")
-    else:
-        d = case["b"]
-        arg = targ(lab, form, d)
-        sims = lambda ch, log: _exp_timeout_rel(eff, s0, d, other, ch, log)  # noqa: E731
-        ts = [s0] + [m[0] for m in eff]
-        near = any(abs((b - a) - d) <= 1 for a, b in zip(ts, ts[1:]))
-        if any(b - a == d for a, b in zip(ts, ts[1:])):
-            cls.append("gap=d")
-    p = execute(lab, src.pipe(ops.timeout(arg, oth) if oth is not None else ops.timeout(arg)), s0)
-    logs = []
+    arg = targ(lab, form, case["b"])
+    ticks = sub_ticks(case)
+    probes = execute_all(lab, src.pipe(ops.timeout(arg, oth) if oth is not None else ops.timeout(arg)), ticks)
+    res, wants = [], []
+    for p, s0 in zip(probes, ticks):
+        eff = effective(case["src"], s0)
+        cls = _bcls(case) + ["fallback" if other is not None else "no-fallback"]
+        if form == "abs":
+            near = _near(eff, max(case["b"], s0))
+            if case["b"] < s0:
+                cls.append("absolute-in-the-past")
+        else:
+            d = case["b"]
+            ts = [s0] + [m[0] for m in eff]
+            near = any(abs((b - a) - d) <= 1 for a, b in zip(ts, ts[1:]))
+            if any(b - a == d for a, b in zip(ts, ts[1:])):
+                cls.append("gap=d")
+        sims = _timeout_sim(case, eff, s0, other)
+        logs = []
 
-    def sim(ch):
-        log = []
-        r = sims(ch, log)
-        logs.append(log)
-        return r
+        def sim(ch, sims=sims, logs=logs):
+            log = []
+            r = sims(ch, log)
+            logs.append(log)
+            return r
 
-    outs = outcomes(sim)
-    if eff and eff[-1][1] != "N":
-        cls.append("source-terminates")
-    r = judge("timeout", case, lab, p, outs, cls, near, norm=_norm_timeout)
+        outs = outcomes(sim)
+        if eff and eff[-1][1] != "N":
+            cls.append("source-terminates")
+        w = _fallback_wants(p, list(zip(outs, logs)))
+        if any(w):
+            cls.append("timed-out")
+        wants.append(w)
+        res.append(judge("timeout", case, lab, p, outs, cls, near, norm=_norm_timeout))
+    r = combine(res, ticks)
     if r.ok and not r.inconclusive:
-        r2 = _check_fallback_subs("timeout", case, p, oth, list(zip(outs, logs)), cls)
+        r2 = _check_fallback_all("timeout", case, oth, wants, list(r.classes))
         if r2 is not None:
             return r2
-        r.classes = tuple(sorted(set(r.classes) | set(cls)))
     return r
 
 
@@ -342,46 +370,51 @@ def _exp_twm(eff, s0, first, tos, other, ch, log):
 
 def _run_twm(case):
     lab = mk_lab(case["clock"])
-    s0 = case["s0"]
     src = lab.source(case["src"])
     first, tos, other = case.get("first"), case["tos"], case.get("other")
     oth = lab.source(other) if other is not None else None
     fst = lab.source(first) if first is not None else None
-    eff = effective(case["src"], s0)
-    cls = [f"clock:{case['clock']}", f"src:{case['src']['kind']}", "fallback" if other is not None else "no-fallback", "first-timeout" if first is not None else "no-first-timeout"]
-    p = execute(lab, src.pipe(ops.timeout_with_mapper(fst, lambda x: lab.source(tos[x]), oth)), s0)
-    logs = []
+    ticks = sub_ticks(case)
+    probes = execute_all(lab, src.pipe(ops.timeout_with_mapper(fst, lambda x: lab.source(tos[x]), oth)), ticks)
+    res, wants = [], []
+    for p, s0 in zip(probes, ticks):
+        eff = effective(case["src"], s0)
+        cls = [f"clock:{case['clock']}", f"src:{case['src']['kind']}", "fallback" if other is not None else "no-fallback", "first-timeout" if first is not None else "no-first-timeout"]
+        logs = []
 
-    def sim(ch):
-        log = []
-        r = _exp_twm(eff, s0, first, tos, other, ch, log)
-        logs.append(log)
-        return r
+        def sim(ch, eff=eff, s0=s0, logs=logs):
+            log = []
+            r = _exp_twm(eff, s0, first, tos, other, ch, log)
+            logs.append(log)
+            return r
 
-    outs = outcomes(sim)
-    for q in tos + ([first] if first is not None else []):
-        f = first_fire(q["tl"])
-        if q["kind"] == "sync" and f is not None and f[0] == 0:
-            cls.append("timeout-observable:sync-immediate")
-        if f is not None and f[1] == "C":
-            cls.append("timeout-observable:fires-by-completion")
-    # non-trivial: some notification within one tick of a running deadline
-    near = False
-    ff = first_fire(first["tl"]) if first is not None else None
-    due = s0 + ff[0] if ff else None
-    for m in eff:
-        if due is not None and abs(m[0] - due) <= 1:
-            near = True
-        if m[1] == "N":
-            ff = first_fire(tos[int(m[2][2:])]["tl"])
-            due = m[0] + ff[0] if ff else None
-    r = judge("timeout_with_mapper", case, lab, p, outs, sorted(set(cls)), near, norm=_norm_timeout)
+        outs = outcomes(sim)
+        for q in tos + ([first] if first is not None else []):
+            f = first_fire(q["tl"])
+            if q["kind"] == "sync" and f is not None and f[0] == 0:
+                cls.append("timeout-observable:sync-immediate")
+            if f is not None and f[1] == "C":
+                cls.append("timeout-observable:fires-by-completion")
+        # non-trivial: some notification within one tick of a running deadline
+        near = False
+        ff = first_fire(first["tl"]) if first is not None else None
+        due = s0 + ff[0] if ff else None
+        for m in eff:
+            if due is not None and abs(m[0] - due) <= 1:
+                near = True
+            if m[1] == "N":
+                ff = first_fire(tos[int(m[2][2:])]["tl"])
+                due = m[0] + ff[0] if ff else None
+        w = _fallback_wants(p, list(zip(outs, logs)))
+        if any(w):
+            cls.append("timed-out")
+        wants.append(w)
+        res.append(judge("timeout_with_mapper", case, lab, p, outs, sorted(set(cls)), near, norm=_norm_timeout))
+    r = combine(res, ticks)
     if r.ok and not r.inconclusive:
-        r2 = _check_fallback_subs("timeout_with_mapper", case, p, oth, list(zip(outs, logs)), cls)
+        r2 = _check_fallback_all("timeout_with_mapper", case, oth, wants, list(r.classes))
         if r2 is not None:
             r = r2
-        else:
-            r.classes = tuple(sorted(set(r.classes) | set(cls)))
     if not r.ok and not r.sig.startswith("escaped"):
         # root-cause bucket: a timeout observable that emits and completes inside its own subscribe() call
         for q in tos + ([first] if first is not None else []):
@@ -402,7 +435,7 @@ def _window_cases(draw):
     b = d
     if form == "abs":
         b = draw(st.sampled_from([s0 + d, s0 + d, s0 + d, max(0, s0 - 1), s0]))
-    return {"clock": draw(st.sampled_from(CLOCKS)), "s0": s0, "src": spec, "op": op, "form": form, "b": b}
+    return {"clock": draw(st.sampled_from(CLOCKS)), "s0": s0, "src": spec, "op": op, "form": form, "b": b, "s1": second_sub(draw, s0)}
 
 
 @st.composite
@@ -415,7 +448,7 @@ def _last_cases(draw):
     extra = None
     if draw(st.integers(0, 3)) > 0:
         extra = {"pos": draw(st.integers(0, 6)), "frac": draw(st.integers(0, 3))}
-    return {"clock": draw(st.sampled_from(CLOCKS)), "s0": s0, "src": spec, "op": op, "form": draw(st.sampled_from(FORMS)), "d": d, "extra": extra}
+    return {"clock": draw(st.sampled_from(CLOCKS)), "s0": s0, "src": spec, "op": op, "form": draw(st.sampled_from(FORMS)), "d": d, "extra": extra, "s1": second_sub(draw, s0)}
 
 
 @st.composite
@@ -436,7 +469,7 @@ def _timeout_cases(draw):
         last = max([0] + [m[0] for m in spec["tl"]])
         base = s0 if spec["kind"] != "hot" else 0
         b = draw(st.sampled_from([s0 + d, base + last, base + last + 1, max(0, base + last - 1), max(0, s0 - 1), s0]))
-    return {"clock": draw(st.sampled_from(CLOCKS)), "s0": s0, "src": spec, "form": form, "b": b, "other": draw(_others())}
+    return {"clock": draw(st.sampled_from(CLOCKS)), "s0": s0, "src": spec, "form": form, "b": b, "other": draw(_others()), "s1": second_sub(draw, s0)}
 
 
 @st.composite
@@ -444,7 +477,7 @@ def _twm_cases(draw):
     s0, spec = draw(sources(d=2, max_len=5, kinds=("cold", "cold", "sync")))
     tos = [draw(triggers(max_t=4)) for _ in range(nelems(spec))]
     first = draw(triggers(max_t=4)) if draw(st.integers(0, 3)) > 0 else None
-    return {"clock": draw(st.sampled_from(CLOCKS)), "s0": s0, "src": spec, "first": first, "tos": tos, "other": draw(_others())}
+    return {"clock": draw(st.sampled_from(CLOCKS)), "s0": s0, "src": spec, "first": first, "tos": tos, "other": draw(_others()), "s1": second_sub(draw, s0)}
 
 
 def checks(tier):
